@@ -7,6 +7,7 @@ when present (checks/c04_pipeline.py).
 import importlib
 
 import c04_api
+import x04pf
 
 
 def run(ctx, replay):
@@ -17,6 +18,13 @@ def run(ctx, replay):
     if replay and c04_api.run_replay(ctx, replay):
         return
     c04_api.run_api(ctx)
+    # background refresh: claim, queue, worker, completion CAS, Stop (Prefetch.tla), gated on the real cache
+    import os
+    ctx.overlay_tags.add("x04pf")
+    ov = os.path.join(ctx.scratch, "overlay.json")
+    if os.path.exists(ov):
+        os.remove(ov)
+    x04pf.run_tier(ctx)
     try:
         pipe = importlib.import_module("c04_pipeline")
     except ImportError:
